@@ -62,6 +62,11 @@ def _disp_sets(full: bool):
                 {"enter": a[0], "exit": a[1], "yields": "none"},
                 {"enter": b[0], "exit": b[1], "yields": "none"},
             ]
+        # an enter failing with a BaseException that is not an Exception (alone, next to an
+        # ordinary failure, next to an entered disposable whose roll-back exit fails as well)
+        yield [{"enter": "raise_base", "exit": "ok", "yields": "none"}]
+        for a in (("ok", "ok"), ("raise", "ok"), ("ok", "raise"), ("susp_ok", "ok"), ("susp_raise", "ok")):
+            yield [{"enter": "raise_base", "exit": "ok", "yields": "none"}, {"enter": a[0], "exit": a[1], "yields": "none"}]
 
 
 def _single_blocks(rich: bool):
